@@ -161,7 +161,14 @@ def switch_local(body, bb):
     for _ in range(4):
         ds = [d for d in body.defs().get(l, []) if not body.is_cleanup(d[0])]
         if len(ds) == 1 and ds[0][2] == "rv" and ds[0][3]["r"] == "discr" and not ds[0][3]["place"]["proj"]:
-            return (ds[0][3]["place"]["l"], True, tuple(ds[0][3].get("variants", ())), neg)
+            src = ds[0][3]["place"]["l"]
+            for _ in range(4):   # the matched value may be a moved copy of the state (`match scan(s) {..}` inlined)
+                d2 = [d for d in body.defs().get(src, []) if not body.is_cleanup(d[0])]
+                if len(d2) == 1 and d2[0][2] == "rv" and d2[0][3]["r"] == "use" and d2[0][3]["op"]["o"] in ("copy", "move") and not d2[0][3]["op"]["place"]["proj"]:
+                    src = d2[0][3]["op"]["place"]["l"]
+                else:
+                    break
+            return (src, True, tuple(ds[0][3].get("variants", ())), neg)
         if len(ds) == 1 and ds[0][2] == "rv" and ds[0][3]["r"] == "use" and ds[0][3]["op"]["o"] in ("copy", "move") and not ds[0][3]["op"]["place"]["proj"]:
             l = ds[0][3]["op"]["place"]["l"]
             continue
@@ -171,6 +178,41 @@ def switch_local(body, bb):
             continue
         break
     return (l, False, (), neg)
+
+
+def _reads_before_writes(body, path, test_bb, state):
+    """the value tested in test_bb is the state as it was when the iteration began: it is read (directly, or into the
+    temporary that is tested, `mem::replace(&mut flag, true)` modelled) before any assignment to the state on this path"""
+    # where is the state read?  walk the switch operand's copy chain back to the statement that reads `state`
+    t = body.term(test_bb)
+    l = t["discr"]["place"]["l"]
+    read_at = None
+    for _ in range(6):
+        if l == state:
+            break
+        ds = [d for d in body.defs().get(l, []) if not body.is_cleanup(d[0])]
+        if len(ds) != 1 or ds[0][2] != "rv":
+            return False
+        b, i, _, rv = ds[0]
+        src = rv.get("place") if rv["r"] == "discr" else rv["op"].get("place") if rv["r"] == "use" else rv["a"].get("place") if rv["r"] == "unop" else None
+        if src is None or src["proj"]:
+            return False
+        if src["l"] == state:
+            read_at = (b, i)
+            break
+        l = src["l"]
+    order = {b: n for n, b in enumerate(path)}
+    if read_at is None:
+        read_at = (test_bb, len(body.blocks[test_bb]["stmts"]))
+    if read_at[0] not in order:
+        return False
+    for b in path:
+        if b not in order or order[b] > order[read_at[0]]:
+            continue
+        for i, s_ in enumerate(body.blocks[b]["stmts"]):
+            if s_.get("s") == "assign" and s_["place"]["l"] == state and (order[b] < order[read_at[0]] or i < read_at[1]):
+                return False
+    return True
 
 
 def loop_transitions(facts, summ, body, loop):
@@ -241,6 +283,8 @@ def loop_transitions(facts, summ, body, loop):
             if sl is not None and sl[0] in st:
                 # a test of the loop-carried state
                 local, is_d, variants, neg = sl
+                if not _reads_before_writes(body, path, a, local):
+                    raise AnchorError("loop state tested after being assigned in the same iteration", body.key)
                 pre.setdefault(local, []).append(state_test_value(is_d, variants, eg[1], neg))
                 continue
             f = elem_atom_formula(facts, summ, body, eg[0], eg[1], is_elem)
